@@ -524,4 +524,140 @@ theorem admits_sound_main (h : Hist) (ha : admits h = true) :
     simp only [hσ] at hw
     exact explains_sound_main h σ wf hw
 
+/-! ### writes -/
+
+theorem writeN_mmap (n : Nat) : writeN typeMMap .rwx n = some .rwx := by
+  induction n with
+  | zero => rfl
+  | succ k ih => simp only [writeN, writeOnce, writeVia, if_true]; exact ih
+
+theorem writeN_holder (n : Nat) : ∀ p, writeN typeHolder p n = some (if n = 0 then p else .rx) := by
+  induction n with
+  | zero => intro p; rfl
+  | succ k ih =>
+    intro p
+    have e : writeOnce typeHolder p = some .rx := by
+      simp only [writeOnce, writeVia, typeHolder, typeMMap]; rfl
+    simp only [writeN, e, ih]
+    cases k <;> simp
+
+/-- in the critical section of memory.WriteTo -/
+def critical : WPc → Bool
+  | .unprotect => true
+  | .copy => true
+  | .reprotect => true
+  | .unlock => true
+  | _ => false
+
+structure WInv (s : WSt) : Prop where
+  nofault : s.faulted = false
+  mutex : ∀ (i : Nat) (pc : WPc), s.pcs[i]? = some pc → critical pc = true → s.holder = some i
+  writable : ∀ (i : Nat), s.pcs[i]? = some .copy → s.perm = .rwx
+
+theorem winv_step {s : WSt} (inv : WInv s) (i : Nat) : WInv (wstep s i) := by
+  unfold wstep
+  cases h : s.pcs[i]? with
+  | none => exact inv
+  | some pc =>
+    have hilt : i < s.pcs.length := (List.getElem?_eq_some_iff.mp h).1
+    have get : ∀ (x : WPc) (k : Nat), (s.pcs.set i x)[k]? = if i = k then some x else s.pcs[k]? := by
+      intro x k; rw [List.getElem?_set]; simp only [hilt, if_true]
+    cases pc with
+    | lock =>
+      simp only
+      by_cases hh : s.holder = none
+      · simp only [hh, if_true]
+        refine ⟨inv.nofault, ?_, ?_⟩
+        · intro k pc hk hc
+          simp only [get] at hk
+          by_cases e : i = k
+          · rw [e]
+          · simp only [e, if_false] at hk
+            have := inv.mutex k pc hk hc
+            rw [hh] at this; cases this
+        · intro k hk
+          simp only [get] at hk
+          by_cases e : i = k
+          · simp only [e, if_true, Option.some.injEq] at hk; cases hk
+          · simp only [e, if_false] at hk
+            have := inv.mutex k .copy hk rfl
+            rw [hh] at this; cases this
+      · simp only [hh, if_false]; exact inv
+    | unprotect =>
+      have hi := inv.mutex i .unprotect h rfl
+      refine ⟨inv.nofault, ?_, ?_⟩
+      · intro k pc hk hc
+        simp only [get] at hk
+        by_cases e : i = k
+        · rw [← e]; exact hi
+        · simp only [e, if_false] at hk; exact inv.mutex k pc hk hc
+      · intro k _; rfl
+    | copy =>
+      have hw := inv.writable i h
+      refine ⟨?_, ?_, ?_⟩
+      · simp only [inv.nofault, hw, Bool.false_or, decide_eq_false_iff_not, ne_eq, not_true_eq_false, not_false_eq_true]
+      · intro k pc hk hc
+        simp only [get] at hk
+        by_cases e : i = k
+        · rw [← e]; exact inv.mutex i .copy h rfl
+        · simp only [e, if_false] at hk; exact inv.mutex k pc hk hc
+      · intro k hk
+        simp only [get] at hk
+        by_cases e : i = k
+        · simp only [e, if_true, Option.some.injEq] at hk; cases hk
+        · simp only [e, if_false] at hk; exact inv.writable k hk
+    | reprotect =>
+      have hi := inv.mutex i .reprotect h rfl
+      refine ⟨inv.nofault, ?_, ?_⟩
+      · intro k pc hk hc
+        simp only [get] at hk
+        by_cases e : i = k
+        · rw [← e]; exact hi
+        · simp only [e, if_false] at hk; exact inv.mutex k pc hk hc
+      · intro k hk
+        simp only [get] at hk
+        by_cases e : i = k
+        · simp only [e, if_true, Option.some.injEq] at hk; cases hk
+        · simp only [e, if_false] at hk
+          have := inv.mutex k .copy hk rfl
+          rw [hi] at this
+          simp only [Option.some.injEq] at this
+          exact absurd this e
+    | unlock =>
+      have hi := inv.mutex i .unlock h rfl
+      refine ⟨inv.nofault, ?_, ?_⟩
+      · intro k pc hk hc
+        simp only [get] at hk
+        by_cases e : i = k
+        · simp only [e, if_true, Option.some.injEq] at hk; rw [← hk] at hc; cases hc
+        · simp only [e, if_false] at hk
+          have := inv.mutex k pc hk hc
+          rw [hi] at this
+          simp only [Option.some.injEq] at this
+          exact absurd this e
+      · intro k hk
+        simp only [get] at hk
+        by_cases e : i = k
+        · simp only [e, if_true, Option.some.injEq] at hk; cases hk
+        · simp only [e, if_false] at hk; exact inv.writable k hk
+    | done => exact inv
+
+theorem winv_run (σ : List Nat) : ∀ {s : WSt}, WInv s → WInv (wrun s σ) := by
+  induction σ with
+  | nil => intro s h; exact h
+  | cons i rest ih => intro s h; simp only [wrun, List.foldl_cons]; exact ih (winv_step h i)
+
+theorem winv_init (n : Nat) : WInv (winit n) := by
+  refine ⟨rfl, ?_, ?_⟩
+  · intro i pc h hc
+    simp only [winit, List.getElem?_replicate] at h
+    split at h
+    · simp only [Option.some.injEq] at h; rw [← h] at hc; cases hc
+    · cases h
+  · intro i h
+    simp only [winit, List.getElem?_replicate] at h
+    split at h
+    · cases h
+    · cases h
+
 end C20L
